@@ -195,7 +195,11 @@ func (w *World) Project() map[string]interface{} {
 	out["quiet"] = w.WL.Quiescent(w) && !w.gcPending()
 	// wake-up state of the two work queues; stuck: nothing will ever run again without a user action
 	stuck := !w.Q.RoPending && !w.Q.BrPending && !w.Q.RoTimer && !w.Q.BrTimer && w.WL.Quiescent(w) && !w.gcPending() && !w.tickUseful()
-	out["q"] = map[string]interface{}{"on": w.Cfg.Queue, "roP": w.Q.RoPending, "brP": w.Q.BrPending, "roT": w.Q.RoTimer, "brT": w.Q.BrTimer, "stuck": w.Cfg.Queue && stuck}
+	if w.Cfg.Queue {
+		out["q"] = map[string]interface{}{"on": true, "roP": w.Q.RoPending, "brP": w.Q.BrPending, "roT": w.Q.RoTimer, "brT": w.Q.BrTimer, "stuck": stuck}
+	} else {
+		out["q"] = map[string]interface{}{"on": false, "roP": false, "brP": false, "roT": false, "brT": false, "stuck": false}
+	}
 	return out
 }
 
